@@ -43,8 +43,8 @@ struct rbe {
     struct cstl_rbtree_node n;
 };
 
-static struct cstl_bintree bt;
-static struct cstl_rbtree rb;
+static struct cstl_bintree bt, bt2;      /* bt2 / rb2: the other operand of `swap` (same element pool) */
+static struct cstl_rbtree rb, rb2;
 static cstl_map_t map;
 
 static struct bte btpool[NE + 1];
@@ -539,6 +539,10 @@ static void reset(void)
     }
     H_POISON_OBJ(bt);
     H_POISON_OBJ(rb);
+    H_POISON_OBJ(bt2);
+    H_POISON_OBJ(rb2);
+    cstl_bintree_init(&bt2, cmp_bt, H_PRIV(1), offsetof(struct bte, n));
+    cstl_rbtree_init(&rb2, cmp_rb, H_PRIV(2), offsetof(struct rbe, n));
     H_POISON_OBJ(map);
     cstl_bintree_init(&bt, cmp_bt, H_PRIV(1), offsetof(struct bte, n));
     cstl_rbtree_init(&rb, cmp_rb, H_PRIV(2), offsetof(struct rbe, n));
@@ -782,8 +786,21 @@ static void op(int argc, char ** argv)
                 }
             }
         }
-        memset(in, 0, NE + 1);
+        /* `in` marks the elements of the tree and of its swap partner */
+        for (i = 0; i < ncleared; i++) {
+            if (cleared[i] >= 1 && cleared[i] <= NE) {
+                in[cleared[i]] = 0;
+            }
+        }
         outf(" p=%d", okp);
+    } else if (!strcmp(o, "swap") && argc == 2) {
+        /* exchange the tree with its (initially empty) partner */
+        if (kind == K_BT) {
+            cstl_bintree_swap(&bt, &bt2);
+        } else {
+            cstl_rbtree_swap(&rb, &rb2);
+        }
+        outf("ok");
     } else if (!strcmp(o, "show") && argc == 2) {
         outf("ok");
         full = 1;
